@@ -31,6 +31,7 @@ RULE += (' Also: the decorated function as a plain function that works when call
 RULE += (" Also: contexts replacing the body's failure by a RuntimeError of their own.")
 RULE += (' Also: calls made from inside an except block of the caller.')
 RULE += (' Also: exceptions with lenient equality.')
+RULE += (' Also: call objects created up-front and started later.')
 ASSUMPTIONS = ["class-based ContextDecorator instances are shared between calls (documented default of _recreate_cm)"]
 EXHAUSTIVE_SUBSPACES = 'every scenario counted in scenarios_explored_exhaustively had ALL its interleavings executed'
 EXHAUSTIVE = {"quick": False, "thorough": False}
@@ -63,7 +64,8 @@ def cases(tier, seed, shard, nshards):
                # ... by an exception of its own that IS a RuntimeError (the type the generator protocol itself uses to
                # report a Stop(Async)Iteration that escaped): still the context's replacement, whatever the chaining
                "translate_runtime": rng.random() < 0.4,
-               "while_handling": rng.random() < 0.3}
+               "while_handling": rng.random() < 0.3,
+               "precreate": rng.random() < 0.25}
 
 
 BodyError = Planned  # the body's failure: one of the PLANNED family, chosen per scenario
@@ -259,12 +261,36 @@ def execute(case, choose, cancel_at=None):
     results = []
 
     async def caller(t, hows):
-        for how in hows:
-            counter["call"] += 1
-            cid = counter["call"]
+        made = []
+        if case.get("precreate"):
+            # every call OBJECT of this task is created up-front and started later (gather / ensure_future create their
+            # coroutine objects before any of them runs): which manager a call uses is settled when the call RUNS
+            for how in hows:
+                counter["call"] += 1
+                cid = counter["call"]
+                made.append((cid, body(cid, how, func="F", self="S", args="A", kwds="K", cm="C")))
+            try:
+                await Suspend(("created", t), 1)
+            except BaseException:
+                for _, call in made:
+                    call.close()
+                raise
+        for n_call, how in enumerate(hows):
+            if made:
+                cid = made[n_call][0]
+            else:
+                counter["call"] += 1
+                cid = counter["call"]
             ev.append((CTX.current, "call", cid, how))
             try:
-                if case.get("while_handling"):
+                if made:
+                    try:
+                        r = await made[n_call][1]
+                    except Cancel:
+                        for _, later in made[n_call + 1:]:
+                            later.close()  # (never started: the caller disposes of its own coroutine objects)
+                        raise
+                elif case.get("while_handling"):
                     # the call is made from INSIDE an except block of its caller (a retry, a fallback): the exception
                     # being handled out there is none of the call's business
                     try:
